@@ -260,6 +260,10 @@ class Zoo:
         self.parked = 0               # processes resumed through SimFuture.resolve()
         self.max_lag_ns = 0
         self._names: list[str] = []
+        self._cur_t = -1
+        self._norm_cache: dict = {}
+        self._same_t_counts = Counter()
+        self._same_t_last: dict = {}
         self.at_end = None            # optional callable run after the simulation (fault counters, API-driven classes)
         self._repo_classes = enumerate_entity_classes()
 
@@ -365,6 +369,12 @@ class Zoo:
         return cur, self.subject
 
     def norm_type(self, s) -> str:
+        hit = self._norm_cache.get(s)
+        if hit is None:
+            hit = self._norm_cache[s] = self._norm_type(s)
+        return hit
+
+    def _norm_type(self, s) -> str:
         s = str(s)
         s = re.sub(r"::.*$", "", s)
         for n in self._names:          # f"{self.name}_request" style event types
@@ -432,10 +442,44 @@ class Zoo:
             f"({lag}ns in the past) while processing {getattr(cur, 'event_type', None)!r}",
         )
 
+    def _cls_of(self, target) -> str:
+        t = getattr(target, "_resource", target)
+        return type(t).__name__ if self._is_repo_entity(t) and type(t).__name__ != "CallbackEntity" else self.subject
+
+    def _inner_repo_class(self, ev):
+        """Repo component class owning the innermost suspended generator frame of a process event (or None)."""
+        gen = getattr(ev, "process", None)
+        depth, inner = 0, None
+        while gen is not None and depth < 20:
+            code = getattr(gen, "gi_code", None)
+            if code is not None and repo.REPO in code.co_filename and "/components/" in code.co_filename:
+                inner = code
+            gen = getattr(gen, "gi_yieldfrom", None)
+            depth += 1
+        if inner is not None:
+            q = inner.co_qualname.split(".")[0]
+            if q in self._repo_classes:
+                return q
+        return None
+
     def _spin_sig(self, ev):
-        t = getattr(ev.target, "_resource", ev.target)
-        cls = type(t).__name__ if self._is_repo_entity(t) and type(t).__name__ != "CallbackEntity" else self.subject
-        return f"{P}/frozen-clock-spin/{cls}/{self.norm_type(ev.event_type)}"
+        """Name the (class, event type) delivered most often at the frozen instant (ties: alphabetical), not
+        whichever delivery happened to cross the threshold.  Preference: classes of the driver under test, then
+        anything but pure transport (Network / NetworkLink), then everything.  If the spinning delivery is a process
+        whose innermost suspended frame belongs to another repo component (a PooledClient process busy-waiting
+        inside ConnectionPool.acquire), that component is named."""
+        counts = self._same_t_counts
+        if not counts:
+            return f"{P}/frozen-clock-spin/{self._cls_of(ev.target)}/{self.norm_type(ev.event_type)}"
+        pool = {k: v for k, v in counts.items() if k[0] in self.classes}
+        if not pool:
+            pool = {k: v for k, v in counts.items() if k[0] not in ("Network", "NetworkLink")} or counts
+        (cls, et), _ = max(pool.items(), key=lambda kv: (kv[1], kv[0]))
+        last = self._same_t_last.get((cls, et))
+        inner = self._inner_repo_class(last) if last is not None else None
+        if inner is not None:
+            cls = inner
+        return f"{P}/frozen-clock-spin/{cls}/{et}"
 
     def _on_delivery(self, ev, mon):
         t = getattr(ev.target, "_resource", None)
@@ -444,8 +488,16 @@ class Zoo:
         else:
             t = ev.target
         self.delivered[type(t).__name__] += 1
+        tn = ev.time.nanoseconds
+        if tn != self._cur_t:
+            self._cur_t = tn
+            self._same_t_counts.clear()
+            self._same_t_last.clear()
+        key = (self._cls_of(ev.target), self.norm_type(ev.event_type))
+        self._same_t_counts[key] += 1
+        self._same_t_last[key] = ev
         if mon.seq % 1000 == 0:
-            self._marks.append(ev.time.nanoseconds)
+            self._marks.append(tn)
 
     # ---- run ----------------------------------------------------------------
     def execute(self, build, cfg) -> dict:
@@ -523,7 +575,8 @@ class Zoo:
                 span = marks[-1] - marks[-1 - w]
                 if span < CREEP_NS_PER_DELIVERY * CREEP_WINDOW:
                     last = getattr(sim, "_last_event", None)
-                    cls = self._spin_sig(last).split("/", 2)[2] if last is not None else f"{self.subject}/?"
+                    cls = (f"{self._cls_of(last.target)}/{self.norm_type(last.event_type)}" if last is not None
+                           else f"{self.subject}/?")
                     self.record(f"{P}/clock-creep-spin/{cls}",
                                 f"delivery cap {DELIVERY_CAP} reached; the clock advanced only {span}ns over the last "
                                 f"{CREEP_WINDOW} deliveries")
